@@ -6,6 +6,8 @@ import (
 	"go/constant"
 	"go/token"
 	"go/types"
+	"golang.org/x/tools/go/types/typeutil"
+	"os"
 	"reflect"
 )
 
@@ -374,6 +376,18 @@ func (d *detemper) tempDef(s ast.Stmt) (*types.Var, ast.Expr) {
 	if _, isTuple := d.info.TypeOf(e).(*types.Tuple); isTuple {
 		return nil, nil
 	}
+	// an expression holding a function literal stays where it is: its statements have positions of their own,
+	// which a substituted operand cannot keep
+	hasLit := false
+	ast.Inspect(e, func(n ast.Node) bool {
+		if _, ok := n.(*ast.FuncLit); ok {
+			hasLit = true
+		}
+		return !hasLit
+	})
+	if hasLit {
+		return nil, nil
+	}
 	// the variable's type must be the expression's own type (no implicit conversion to an interface etc.)
 	if et := d.info.TypeOf(e); et == nil || !types.Identical(et, v.Type()) {
 		return nil, nil
@@ -704,6 +718,49 @@ func replaceChild(parent ast.Node, old *ast.Ident, repl ast.Expr) bool {
 //	for i := range S { v := S[i]; B }        →  for i, v := range S { B }
 //	for i[, v] := range S { … S[i] … }       →  for i, v := range S { … v … }
 func (p *Prog) canonLoops(info *types.Info, body *ast.BlockStmt) {
+	// variables that code outside a loop body can change while the body runs: address taken, or mentioned in a
+	// function literal
+	p.loopEscaped = map[types.Object]bool{}
+	var scan func(n ast.Node, inLit bool)
+	scan = func(n ast.Node, inLit bool) {
+		ast.Inspect(n, func(m ast.Node) bool {
+			switch t := m.(type) {
+			case *ast.FuncLit:
+				if !inLit {
+					scan(t.Body, true)
+					return false
+				}
+			case *ast.UnaryExpr:
+				if t.Op == token.AND {
+					e := ast.Unparen(t.X)
+					for {
+						if sel, ok := e.(*ast.SelectorExpr); ok {
+							e = ast.Unparen(sel.X)
+							continue
+						}
+						if ix, ok := e.(*ast.IndexExpr); ok {
+							e = ast.Unparen(ix.X)
+							continue
+						}
+						break
+					}
+					if id, ok := e.(*ast.Ident); ok {
+						if o := info.Uses[id]; o != nil {
+							p.loopEscaped[o] = true
+						}
+					}
+				}
+			case *ast.Ident:
+				if inLit {
+					if o := info.Uses[t]; o != nil {
+						p.loopEscaped[o] = true
+					}
+				}
+			}
+			return true
+		})
+	}
+	scan(body, false)
 	var visit func(n ast.Node) bool
 	visit = func(n ast.Node) bool {
 		switch t := n.(type) {
@@ -729,7 +786,7 @@ func (p *Prog) canonLoops(info *types.Info, body *ast.BlockStmt) {
 
 func (p *Prog) canonLoopStmt(info *types.Info, s ast.Stmt) ast.Stmt {
 	if fs, ok := s.(*ast.ForStmt); ok {
-		if rs := countingLoop(info, fs); rs != nil {
+		if rs := p.countingLoop(info, fs); rs != nil {
 			s = rs
 		}
 	}
@@ -906,7 +963,7 @@ func (p *Prog) canonLoopStmt(info *types.Info, s ast.Stmt) ast.Stmt {
 
 // countingLoop recognises `for i := 0; i < len(S); i++ { B }` with B not writing i and not
 // assigning S, and returns the equivalent `for i := range S { B }`.
-func countingLoop(info *types.Info, fs *ast.ForStmt) *ast.RangeStmt {
+func (p *Prog) countingLoop(info *types.Info, fs *ast.ForStmt) *ast.RangeStmt {
 	init, ok := fs.Init.(*ast.AssignStmt)
 	if !ok || init.Tok != token.DEFINE || len(init.Lhs) != 1 || len(init.Rhs) != 1 {
 		return nil
@@ -979,6 +1036,55 @@ func countingLoop(info *types.Info, fs *ast.ForStmt) *ast.RangeStmt {
 	})
 	if bad {
 		return nil
+	}
+	// `len(S)` is re-evaluated by every iteration of the counting loop but only once by a range loop: the two
+	// agree only if nothing the body calls can change S. That is so when S is rooted at a plain local value that
+	// nothing else can reach; otherwise (S behind a pointer, a receiver, a captured or address-taken variable)
+	// the body may only call builtins, conversions and functions of other packages
+	reachable := false
+	for e := ast.Unparen(S); ; {
+		if sel, ok := e.(*ast.SelectorExpr); ok {
+			if s := info.Selections[sel]; s == nil || s.Indirect() {
+				reachable = true
+			} else if _, isPtr := info.TypeOf(sel.X).Underlying().(*types.Pointer); isPtr {
+				reachable = true
+			}
+			e = ast.Unparen(sel.X)
+			continue
+		}
+		if id, ok := e.(*ast.Ident); ok {
+			o := info.Uses[id]
+			v, isVar := o.(*types.Var)
+			if !isVar || (v.Pkg() != nil && v.Parent() == v.Pkg().Scope()) || p.loopEscaped[o] {
+				reachable = true
+			}
+		} else {
+			reachable = true
+		}
+		break
+	}
+	if reachable {
+		var home *types.Package
+		if o := info.Defs[key]; o != nil {
+			home = o.Pkg()
+		}
+		ast.Inspect(fs.Body, func(n ast.Node) bool {
+			call, ok := n.(*ast.CallExpr)
+			if !ok || bad {
+				return !bad
+			}
+			if tv, ok := info.Types[call.Fun]; ok && (tv.IsType() || tv.IsBuiltin()) {
+				return true
+			}
+			callee := typeutil.StaticCallee(info, call)
+			if callee == nil || callee.Pkg() == nil || callee.Pkg() == home {
+				bad = true
+			}
+			return !bad
+		})
+		if bad {
+			return nil
+		}
 	}
 	return &ast.RangeStmt{For: fs.For, Key: key, TokPos: init.TokPos, Tok: token.DEFINE, Range: init.TokPos, X: S, Body: fs.Body}
 }
@@ -1516,13 +1622,37 @@ func (p *Prog) sroa(info *types.Info, body *ast.BlockStmt) bool {
 	}
 	// pass 2: every use must be a definition site, a whole assignment from a literal, or the base of a field selection
 	allowed := map[*ast.Ident]bool{}
+	var wholeReturns []*ast.Ident
 	ast.Inspect(body, func(n ast.Node) bool {
 		switch t := n.(type) {
 		case *ast.SelectorExpr:
 			if id, ok := ast.Unparen(t.X).(*ast.Ident); ok {
 				if c := cands[obj(id)]; c != nil {
-					if s := info.Selections[t]; s != nil && s.Kind() == types.FieldVal && len(s.Index()) == 1 {
-						allowed[id] = true
+					// a direct field, or a field promoted from a struct embedded by value
+					if s := info.Selections[t]; s != nil && s.Kind() == types.FieldVal {
+						ok := len(s.Index()) == 1
+						if !ok {
+							// every embedding step is a struct held by value (the selection's own Indirect flag may
+							// stem from a pointer receiver that the expansion replaced by the variable)
+							ok = true
+							st := c.st
+							for _, ix := range s.Index()[:len(s.Index())-1] {
+								if st == nil || ix >= st.NumFields() {
+									ok = false
+									break
+								}
+								st, _ = st.Field(ix).Type().Underlying().(*types.Struct)
+								if st == nil {
+									ok = false
+								}
+							}
+							if _, isPtr := c.obj.Type().Underlying().(*types.Pointer); isPtr {
+								ok = false
+							}
+						}
+						if ok {
+							allowed[id] = true
+						}
 					}
 				}
 			}
@@ -1542,12 +1672,27 @@ func (p *Prog) sroa(info *types.Info, body *ast.BlockStmt) bool {
 					allowed[nm] = true
 				}
 			}
+		case *ast.ReturnStmt:
+			// a struct value built field by field and returned whole is returned as a literal of its fields
+			for _, r := range t.Results {
+				if id, ok := ast.Unparen(r).(*ast.Ident); ok {
+					if c := cands[obj(id)]; c != nil {
+						if _, isPtr := c.obj.Type().Underlying().(*types.Pointer); !isPtr {
+							allowed[id] = true
+							wholeReturns = append(wholeReturns, id)
+						}
+					}
+				}
+			}
 		}
 		return true
 	})
 	ast.Inspect(body, func(n ast.Node) bool {
 		if id, ok := n.(*ast.Ident); ok {
 			if c := cands[obj(id)]; c != nil && !allowed[id] {
+				if c.ok && os.Getenv("SIALINT_DEBUGSROA") != "" {
+					println("sroa: whole use of", id.Name, "at", p.Fset.Position(id.Pos()).String())
+				}
 				c.ok = false
 			}
 		}
@@ -1629,6 +1774,21 @@ func (p *Prog) sroa(info *types.Info, body *ast.BlockStmt) bool {
 			if s == nil || s.Kind() != types.FieldVal {
 				return true
 			}
+			if len(s.Index()) > 1 {
+				// promoted: x.F where F lives in an embedded struct E becomes x_E.F
+				first := c.st.Field(s.Index()[0])
+				fv := fieldVar(c, first, c.obj.Pos())
+				use := &ast.Ident{NamePos: sel.Pos(), Name: fv.Name()}
+				info.Uses[use] = fv
+				info.Types[use] = types.TypeAndValue{Type: first.Type()}
+				nsel := &ast.SelectorExpr{X: use, Sel: sel.Sel}
+				info.Selections[nsel] = s
+				if tv, ok := info.Types[sel]; ok {
+					info.Types[nsel] = tv
+				}
+				replaceExpr(body, sel, nsel)
+				return false
+			}
 			fv := fieldVar(c, s.Obj().(*types.Var), c.obj.Pos())
 			use := &ast.Ident{NamePos: sel.Pos(), Name: fv.Name()}
 			info.Uses[use] = fv
@@ -1640,6 +1800,27 @@ func (p *Prog) sroa(info *types.Info, body *ast.BlockStmt) bool {
 		})
 	}
 	rewriteExprs(body)
+	// whole-value returns become literals of the field variables
+	for _, id := range wholeReturns {
+		c := cands[obj(id)]
+		if c == nil || !c.ok {
+			continue
+		}
+		lit := &ast.CompositeLit{Lbrace: id.Pos(), Rbrace: id.End()}
+		for i := 0; i < c.st.NumFields(); i++ {
+			f := c.st.Field(i)
+			fv := fieldVar(c, f, c.obj.Pos())
+			key := &ast.Ident{NamePos: id.Pos(), Name: f.Name()}
+			use := &ast.Ident{NamePos: id.Pos(), Name: fv.Name()}
+			info.Uses[use] = fv
+			info.Types[use] = types.TypeAndValue{Type: f.Type()}
+			lit.Elts = append(lit.Elts, &ast.KeyValueExpr{Key: key, Colon: id.Pos(), Value: use})
+		}
+		if tv, ok := info.Types[id]; ok {
+			info.Types[lit] = tv
+		}
+		replaceExpr(body, id, lit)
+	}
 	// rewrite definitions / whole assignments into per-field statements
 	expand := func(c *cand, lit *ast.CompositeLit, at token.Pos, define bool) []ast.Stmt {
 		given := map[string]ast.Expr{}
@@ -1702,6 +1883,25 @@ func (p *Prog) sroa(info *types.Info, body *ast.BlockStmt) bool {
 				if len(t.Lhs) == 1 && len(t.Rhs) == 1 {
 					if c := cands[obj(t.Lhs[0])]; c != nil && c.ok {
 						out = append(out, expand(c, litOf(t.Rhs[0]), t.Pos(), t.Tok == token.DEFINE)...)
+						continue
+					}
+				}
+				if len(t.Lhs) > 1 && len(t.Lhs) == len(t.Rhs) {
+					// `x, err = T{…}, e`: the aggregate's fields are assigned one by one, the rest stays together
+					var restL, restR []ast.Expr
+					var parts []ast.Stmt
+					for i := range t.Lhs {
+						if c := cands[obj(t.Lhs[i])]; c != nil && c.ok && litOf(t.Rhs[i]) != nil {
+							parts = append(parts, expand(c, litOf(t.Rhs[i]), t.Pos(), t.Tok == token.DEFINE)...)
+							continue
+						}
+						restL, restR = append(restL, t.Lhs[i]), append(restR, t.Rhs[i])
+					}
+					if len(parts) > 0 {
+						if len(restL) > 0 {
+							out = append(out, &ast.AssignStmt{Lhs: restL, TokPos: t.TokPos, Tok: t.Tok, Rhs: restR})
+						}
+						out = append(out, parts...)
 						continue
 					}
 				}
